@@ -110,3 +110,13 @@ CLAIMED["C03"] = (
     "here (bounded / other properties); key parsing from PEM/DER/certificates is external (A-pki; bounded agreement check).",
     "Trusted: hashes as uninterpreted functions, A-pki (cryptography's key parsing), A-enc, A-smt, A-struct.",
     "DESIGN.md 7 C03")
+CLAIMED["C10"] = (
+    "mboot serial framing: _create_frame / _calc_frame_crc produce 5A type len16 crc16 payload with CRC-16/XMODEM over 5A type len payload, and "
+    "MbootSerialProtocol.read — against a ghost device whose device-to-host stream is universally quantified (any bytes, any length, so every "
+    "corrupted byte, truncation or missing response is inside the quantifier) — returns a payload only for a frame of the declared length whose "
+    "CRC matches, for DATA and CMD frames alike, raises only the documented exceptions otherwise, and always acknowledges the frame. "
+    "USB-HID framing, McuBoot operations (data phases, status mirroring), SDP/SDPS and 'within bounded time' are NOT decided here.",
+    "Trusted: CRC as an uninterpreted function (C09), assumed contracts for the wall-clock wait loop and for response decoding, frame layout "
+    "verified for payload lengths 0/1/4/32 and assumed for the others at call sites, A-enc, A-smt, A-struct. Known design-time findings #28/#29 "
+    "(partial data with SUCCESS status; struct.error from response constructors) are not covered by a check.",
+    "DESIGN.md 7 C10")
